@@ -554,6 +554,10 @@ func thrJudgeObs(res *Result, caseText string, sc *thrScenario, jr *JobResult) {
 	if out.MainMoved > 0 {
 		bad("B startup-thread", fmt.Sprintf("the main goroutine left the startup thread %d times", out.MainMoved))
 	}
+	res.count("B:mount-probe:" + strings.SplitN(out.MountProbe, ":", 2)[0])
+	if out.MountLeak != "" {
+		bad("B mount-table", "after chrooted untar, layer apply and tar on a root that lies on a shared mount, the mount table seen by the rest of the process differs: "+out.MountLeak)
+	}
 	res.nontrivial(caseText)
 	for pi, pr := range []*thrPhaseRes{&out.Conc, &out.Seq} {
 		ph := []string{"concurrent", "one-at-a-time"}[pi]
